@@ -44,6 +44,7 @@ class Glue:
         ex.hooks[FP + '.vAssertScanValue'] = self.h_assert_scan
         ex.hooks[FP + '.vAssertShift'] = self.h_assert_shift
         ex.hooks[FP + '.vAssertSetValue'] = self.h_assert_set
+        ex.hooks[FP + '.vAssertRoundedInt'] = self.h_assert_roundint
         ex.hooks[FP + '.vGlueOverflows'] = self.h_overflows
         ex.glue = self
 
@@ -416,6 +417,65 @@ class Glue:
         if badst.pc is not None:
             ex.finish(badst)
             rec[1] += 1
+        return None
+
+    def h_assert_roundint(self, ex, st, fr, ins, args):
+        """tier 5d: n is the nearest integer (ties to even) of the decimal's value; with trunc every value
+        strictly inside the last digit's bracket above the recorded one rounds to n"""
+        from .terms import sgn
+        aptr, n, idv = args
+        aid = bytes(idv[1]).decode()
+        rec = self.ses.asserts.setdefault(aid, [0, 0])
+        lia = self.lia
+        v = ex.load(st, aptr)
+        d, nd, dp, neg, trunc = v[1]
+        if nd.__class__ is Term or dp.__class__ is Term or trunc.__class__ is Term:
+            raise NotImplementedError('symbolic digit count / decimal point / trunc')
+        nd, dp = sgn(nd, 64), sgn(dp, 64)
+        side = []
+        D = z3.IntVal(0)
+        for i in range(nd):
+            c = d[1][i]
+            if c.__class__ is Term:
+                e_, lo, hi, sd = lia.conv(c)
+                side += list(sd)
+            else:
+                e_ = z3.IntVal(c)
+            D = D * 10 + (e_ - 48)
+        if n.__class__ is Term:
+            nz, _, _, ns = lia.conv(n)
+            side += list(ns)
+        else:
+            nz = z3.IntVal(n)
+        e = dp - nd
+        # value = D*10^e ; compare 2*value with 2n-1 and 2n+1 after clearing the power of ten
+        A, B = 10 ** max(e, 0), 10 ** max(-e, 0)
+        V2 = 2 * D * A                 # 2*value*B
+        lo2, hi2 = (2 * nz - 1) * B, (2 * nz + 1) * B
+        if trunc:
+            bad = z3.Or(lo2 > V2, V2 + 2 * A > hi2)     # value+ulp <= n+1/2, ulp = 10^e = A/B
+        else:
+            bad = z3.Or(lo2 > V2, V2 > hi2, z3.And(z3.Or(lo2 == V2, hi2 == V2), nz % 2 != 0))
+        lia.prefer_fresh = True
+        try:
+            r = lia.check(st.pc, st.extras, (), raw=list(st.raw) + side + [bad])
+        finally:
+            lia.prefer_fresh = False
+        self.ses.obligations = getattr(self.ses, 'obligations', 0) + 1
+        if r == 'unsat':
+            rec[0] += 1
+            return None
+        badst = st.fork()
+        badst.status = 'assertfail'
+        badst.result = (aid, ins['pos'])
+        if r == 'sat':
+            assign = lia.model_assign()
+            for t in st.nondet:
+                badst.extras = badst.extras + (ex.store.mk('eq', 0, t, ex.store.evaluate(t, assign)),)
+        else:
+            badst.inexact = True
+        ex.finish(badst)
+        rec[1] += 1
         return None
 
     # -- the obligation --------------------------------------------------------
